@@ -163,6 +163,19 @@ let fmt_out name r =
 
 let pending_evs : ev list ref = ref []
 let auto_q = ref true
+(* the hierarchy of merged filters maintained alongside the storage model (Storage/Filtered.v `track`) *)
+let st_group = ref 2
+let st_bloom_cfg : string option ref = ref None      (* hex of the bloom config, None = bloom disabled *)
+let st_bloom_bits : int option ref = ref None        (* bit count chosen by the implementation's float formula *)
+let st_bloom_hashers = ref 0
+let hier_tr : chier ref = ref (ch_new (nat_of_int 2))
+let hier_valid = ref true
+let bloom0 () : bloom option =
+  match !st_bloom_cfg, !st_bloom_bits with
+  | None, _ -> None
+  | Some c, Some bits -> Some (bloom_new (n_of_int bits) (n_of_int !st_bloom_hashers) (bytes_of_hex c))
+  | Some _, None -> None
+let filters_known () = !hier_valid && (match !st_bloom_cfg, !st_bloom_bits with Some _, None -> false | _ -> true)
 let () = handlers := ("autoquiesce", (fun a -> auto_q := (a = ["1"]); emit "autoquiesce")) :: (List.filter (fun (n, _) -> n <> "autoquiesce") !handlers)
 let do_op name o =
   let (s', r) = (if !auto_q then step_q else step) (n_of_int !st_k) !st_cfg !st o in
@@ -172,6 +185,8 @@ let do_op name o =
   (match spec_answer !st o with
    | Some sr when !st.s_open -> spec_pending := (if !st.s_f2 then "f2 " else "ok ") ^ fmt_out name sr
    | _ -> ());
+  (if filters_known () then
+     hier_tr := track (n_of_int !st_k) (bloom0 ()) (nat_of_int !st_group) o !st s' !hier_tr);
   st := s';
   emit (fmt_out name r)
 
@@ -185,6 +200,11 @@ let cmd_cfg args =
       | ["maxrec"; v] -> st_cfg := { !st_cfg with c_maxrec = n_of_string v }
       | ["maxsize"; v] -> st_cfg := { !st_cfg with c_maxsize = n_of_string v }
       | ["init"; v] -> st_lazy := (v = "lazy")
+      | ["group"; v] -> st_group := int_of_string v
+      | ["bloom"; v] -> st_bloom_cfg := (if v = "none" then None else Some v);
+        (* hashers = second u64 of the 40-byte config *)
+        (if v <> "none" && String.length v >= 32 then st_bloom_hashers := int_of_n (le_val (bytes_of_hex (String.sub v 16 16))))
+      | ["bloombits"; v] -> st_bloom_bits := Some (int_of_string v)
       | ["validate"; v] -> st_validate := (v = "1")
       | ["nomodel"; "1"] -> tainted_ref := true
       | _ -> ()) args;
@@ -269,8 +289,14 @@ let storage_handlers = [
         | _ -> ());
        emit "fsync ok"));
   ("offload", (fun _ -> emit "*"));
-  ("CF", (fun _ -> emit "*"));
-  ("CFS", (fun _ -> emit "*"));
+  ("CF", (function
+       | [k] when filters_known () && !st.s_open ->
+         emit ("CF " ^ (if cf_answer (n_of_int !st_k) (bloom0 ()) !st (key_of k) then "maybe" else "no"))
+       | _ -> emit "*"));
+  ("CFS", (function
+       | [k] when filters_known () && !st.s_open ->
+         emit ("CFS " ^ (if cfs_answer (n_of_int !st_k) (bloom0 ()) !hier_tr !st (key_of k) then "maybe" else "no"))
+       | _ -> emit "*"));
 ]
 let () = handlers := storage_handlers @ (List.filter (fun (n, _) -> n <> "cfg") !handlers)
 
@@ -569,7 +595,7 @@ let main () =
   let n = Array.length Sys.argv in
   let i = ref 1 in
   while !i + 1 < n do
-    tainted := false; hard_taint := false; auto_q := true; Hashtbl.reset images; Hashtbl.reset outs; pending_evs := []; Hashtbl.reset probes; Hashtbl.reset blooms; Hashtbl.reset raws; st := init_storage; st_k := 4; st_lazy := false; st_validate := false;
+    tainted := false; hard_taint := false; auto_q := true; st_group := 2; st_bloom_cfg := None; st_bloom_bits := None; hier_tr := ch_new (nat_of_int 2); hier_valid := true; Hashtbl.reset images; Hashtbl.reset outs; pending_evs := []; Hashtbl.reset probes; Hashtbl.reset blooms; Hashtbl.reset raws; st := init_storage; st_k := 4; st_lazy := false; st_validate := false;
     st_cfg := { c_dup = true; c_maxrec = n_of_int 1000000; c_maxsize = n_of_int 1000000000 };
     run_script Sys.argv.(!i) Sys.argv.(!i + 1);
     i := !i + 2
